@@ -37,7 +37,8 @@ def handleMesh : List String → Option String
       return (if meshOkPinned su sv s then "ok" else "ERR")
   | ["mesh", "quad", su, sv] => do
       let su ← su.toNat?; let sv ← sv.toNat?
-      if su < 1 ∨ sv < 1 then return "ERR"
+      -- after the repair of F-15c `make_quad_mesh` computes `i / (size_u - 1)`: a size of 1 raises ZeroDivisionError
+      if su < 2 ∨ sv < 2 then return "ERR"
       return s!"V={su * sv} F={showMeshFaces (makeQuadFaces su sv)}"
   | ["mesh", "quaduv", su, sv] => do
       let su ← su.toNat?; let sv ← sv.toNat?
